@@ -323,11 +323,13 @@ def write_evidence(ctx, level, problems):
         "violations": len(ctx.violations),
         "known_findings_hit": [k for k, _ in ctx.known_hits],
     }
-    os.makedirs(os.path.join(VERIF, "evidence"), exist_ok=True)
-    tmp = os.path.join(VERIF, "evidence", ctx.prop + ".json.tmp")
+    # evidence of runs against another tree (NX_REPO: seeded changes) never replaces the evidence of /repo itself
+    evdir = os.path.join(VERIF, "evidence") if "NX_REPO" not in os.environ else os.path.join("/var/tmp", "nx_evidence_other_tree")
+    os.makedirs(evdir, exist_ok=True)
+    tmp = os.path.join(evdir, ctx.prop + ".json.tmp")
     with open(tmp, "w") as fh:
         json.dump(ev, fh, indent=1, default=repr)
-    os.replace(tmp, os.path.join(VERIF, "evidence", ctx.prop + ".json"))
+    os.replace(tmp, os.path.join(evdir, ctx.prop + ".json"))
 
 
 def main(argv):
